@@ -66,7 +66,13 @@ func To(fs http.FileSystem, r *http.Request, to string, replacer httpserver.Repl
 		return RewriteIgnored
 	}
 
-	// perform rewrite
+	// perform rewrite; a request path is always rooted, so a target written
+	// without the leading slash ("index.html") must not produce a path that
+	// path matchers further down the chain (basicauth, internal, ...) would
+	// compare as a different, unprotected one.
+	if !strings.HasPrefix(u.Path, "/") {
+		u.Path = "/" + u.Path
+	}
 	r.URL.Path = u.Path
 	if query != "" {
 		// overwrite query string if present
